@@ -266,6 +266,41 @@ def wrap(mode: int, kind: int, evil_id: int, evil_sig: int, loc: int, strip: boo
     return ok, True, "accepted=%s name_id=%r exc=%r asked=%r" % (acc, None if not acc or resp.name_id is None else resp.name_id.text, exc, BACK.asked)
 
 
+def _parse(text, opt):
+    c = FX.client
+    from veriflib import timemodel
+    from saml2_tophat.population import Population
+    timemodel.set_clock(NOW, FX.clock.tab)
+    c.want_response_signed, c.want_assertions_signed, c.want_assertions_or_response_signed = OPTS[opt]
+    c.allow_unsolicited = False
+    c.users = Population()
+    wire = base64.b64encode(text.encode("utf-8")).decode("ascii")
+    try:
+        return c.parse_authn_request_response(wire, BINDING_HTTP_POST, {REQ_ID: "/"})
+    except Exception:
+        return None
+
+
+def history(mode: int, kind: int, opt: int, twice: bool):
+    """Two documents on the same long-lived SP object: first the genuinely signed response
+    (accepted), then a copy that keeps every ID and Signature verbatim but has edited content."""
+    mode, kind, opt, twice = [concrete(x) for x in (mode, kind, opt, twice)]
+    with untraced():
+        good = attack(mode, 0, 0, 0, 0, False)
+        evil = attack(mode, kind, 0, 0, 0, False)
+    r1 = _parse(good, opt)
+    if twice:
+        _parse(good, opt)
+    r2 = _parse(evil, opt)
+    signed_r, signed_a = mode in (1, 2), mode in (0, 2)
+    wr, wa, we = OPTS[opt]
+    should = ((not wr) or signed_r) and ((not wa) or signed_a) and ((not we) or signed_r or signed_a)
+    ok = ((r1 is not None) == should)
+    if r2 is not None and (r2.name_id is not None or r2.ava):
+        ok = ok and (r2.name_id is not None) and (r2.name_id.text == GOOD_NID) and ((r2.ava or {}).get("givenName", []) == [GOOD_VAL])
+    return ok, True, "first=%s second=%s" % (r1 is not None, None if r2 is None or r2.name_id is None else r2.name_id.text)
+
+
 _P = [("mode", "int"), ("kind", "int"), ("evil_id", "int"), ("evil_sig", "int"), ("loc", "int"), ("strip", "bool"), ("opt", "int")]
 _PRE = ["0 <= mode <= 2", "0 <= kind < %d" % KINDS, "0 <= evil_id <= 1", "0 <= evil_sig <= 4", "0 <= loc <= 6", "0 <= opt < %d" % len(OPTS)]
 CONDITIONS = [
@@ -286,6 +321,16 @@ CONDITIONS = [
                 "keeping or stripped of its own Signature); the same with an evil Response wrapping the original Response; x 4 signature-requiring SP option settings. "
                 "quick: sampled signature-children / location combinations"),
 ]
+
+CONDITIONS.append(
+    Cond(name="history", fn="history", params=[("mode", "int"), ("kind", "int"), ("opt", "int"), ("twice", "bool")],
+         pre=["0 <= mode <= 2", "1 <= kind <= 2", "0 <= opt < %d" % len(OPTS)],
+         partitions={"quick": [{"mode": 0, "opt": 1, "kind": 1}, {"mode": 1, "opt": 0, "kind": 2}, {"mode": 2, "opt": 3, "kind": 1}],
+                     "thorough": [{"mode": m, "opt": o} for m in range(3) for o in range(len(OPTS))]},
+         timeout={"quick": 900, "thorough": 2400}, path_timeout=180,
+         functions=["client_base.Base.parse_authn_request_response (two calls on one client)", "sigver.SecurityContext._check_signature"],
+         bounds="two- and three-document histories on one SP object: the genuine response (once or twice), then the same document with NameID or attribute value edited "
+                "and every ID / Signature verbatim"))
 
 ASSUMPTIONS = [
     "xmlsec1 by contract (harness/xmlsecmodel.py): ID registration only for the --id-attr element name, first-wins on duplicate IDs, start node = --node-id, "
